@@ -43,6 +43,13 @@ theorem partial_hit_is_a_miss (s : RespCache.Store) (keys : List String) (k : St
     (hs : s.get k = none) : RespCache.lookup s keys = none :=
   RespCache.partial_is_a_miss s keys k hk hs
 
+/-- **null_entity_is_not_stored** (∀ batches of distinct keys): an entity the subgraph answered with null (or with
+    anything that is not an object) is not handed to the cache under its key — a later batch that needs it misses. -/
+theorem null_entity_is_not_stored (keys : List String) (vals : List (Option String)) (items : List (String × String))
+    (h : RespCache.collect keys vals = some items) (hn : keys.Nodup) (i : Nat) (k : String)
+    (hk : keys[i]? = some k) (hv : vals[i]? = some none) : ∀ v, (k, v) ∉ items :=
+  RespCache.null_entity_is_not_stored keys vals items h hn i k hk hv
+
 /-- non-vacuity: the answer `[e1, null, e3]` for keys `[k1, k2, k3]` stores e1 under k1 and e3 under k3 (not under k2),
     a later batch `[k1, k2]` misses, `[k1, k3]` hits with `[e1, e3]` -/
 example : RespCache.collect ["k1", "k2", "k3"] [some "{1}", none, some "{3}"] = some [("k1", "{1}"), ("k3", "{3}")] := by decide
